@@ -1260,8 +1260,8 @@ Proof.
     assert (Hn : nilpart {| count := if added then (count m + 1)%Z else count m; root := r; nilV := nilV m |}
                  = nilpart m) by reflexivity.
     split; [split; [exact I1|]|].
-    + rewrite Iter_eq, Hn. cbn [root]. rewrite Iter_eq in Hc. rewrite app_length, map_length in *.
-      rewrite A1. destruct (mem k (flat (root m))); cbn [negb]; lia.
+    + rewrite Iter_eq, Hn. cbn [root count]. rewrite Iter_eq in Hc. rewrite app_length, map_length in *.
+      subst added. revert RL. destruct (mem k (flat (root m))); intros RL; cbn [negb]; lia.
     + rewrite !Iter_eq, Hn. cbn [root]. unfold s_remove. rewrite filter_app. fold (orem (Some k) (nilpart m)).
       fold (orem (Some k) (map lift (flat (root m)))). rewrite orem_lift.
       replace (orem (Some k) (nilpart m)) with (nilpart m)
